@@ -143,7 +143,7 @@ Proof.
   destruct p; try discriminate Ha; destruct w as [l | x y | ]; simpl in Hv; try contradiction;
     try (destruct Hv as (a & vx & vy & -> & HnB & Hn & H1 & H2)); subst; simpl in Hs; try discriminate;
     inversion Hs; subst; simpl; rewrite ?Hn; eexists; split; try reflexivity; simpl; auto;
-    try (destruct l as [z|[|]| | | |]; reflexivity).
+    try (destruct l as [z|[|]| | | | |o|nd]; reflexivity).
 Qed.
 
 Lemma prim2_okB : forall B p h v1 v2 w1 w2 r stk0,
@@ -157,8 +157,8 @@ Lemma prim2_okB : forall B p h v1 v2 w1 w2 r stk0,
 Proof.
   intros B p h v1 v2 w1 w2 r stk0 HB Ha Hp H1 H2 Hs.
   destruct p; try discriminate Ha; try discriminate Hp.
-  all: try (destruct w1 as [[a| | | | |] | |]; simpl in Hs; try discriminate;
-            destruct w2 as [[b| | | | |] | |]; simpl in Hs; try discriminate;
+  all: try (destruct w1 as [[a| | | | | | |] | |]; simpl in Hs; try discriminate;
+            destruct w2 as [[b| | | | | | |] | |]; simpl in Hs; try discriminate;
             simpl in H1, H2; subst; inversion Hs; subst; simpl;
             eexists; exists []; rewrite app_nil_r; split; reflexivity).
   simpl in Hs. inversion Hs; subst. simpl. eexists; exists [HPair v1 v2]. split; [reflexivity|].
@@ -173,7 +173,7 @@ Lemma sval_false_decB : forall B h v w, vrelB B h v w ->
   (w = SLit (LBool false) /\ v = VLit (LBool false)) \/ (w <> SLit (LBool false) /\ v <> VLit (LBool false)).
 Proof.
   intros B h v w H. destruct w as [l | x y | ]; simpl in H; try contradiction.
-  - subst. destruct l as [z|[|]| | | |]; try (right; split; congruence). left; auto.
+  - subst. destruct l as [z|[|]| | | | |o|nd]; try (right; split; congruence). left; auto.
   - destruct H as (a & vx & vy & -> & _). right; split; congruence.
 Qed.
 
@@ -567,7 +567,7 @@ Section Boxes.
         eapply nsteps_trans; [exact Hn1|]. eapply nsteps_trans; [apply nsteps_one; exact Hstep|].
         rewrite Hn2. f_equal. simpl. f_equal. solve_len.
       + assert (Hep : eval f p env st1 = SVal v st').
-        { destruct vt as [[z|[|]| | | |] | |]; try exact He; congruence. }
+        { destruct vt as [[z|[|]| | | | |o|nd] | |]; try exact He; congruence. }
         pose proof (step_jump_unless_true s1 _ _ _ v1 (stk s) Hat2 eq_refl Hv) as Hstep.
         set (s2 := upd s1 (stk s) (S (ip s1)) (heap s1)) in *.
         assert (Hat3 : at_code s2 (pre ++ ct ++ [IJumpUnless (S (length cp))]) cp ([IJump (length cf)] ++ cf ++ post)).
